@@ -2,8 +2,8 @@ package mj
 
 import (
 	"bytes"
-	"fmt"
 	"errors"
+	"fmt"
 	"io"
 	"reflect"
 	"sync"
@@ -59,6 +59,11 @@ func EngineRun(p *Program, funcs map[string]jet.Func) (jetrun.Outcome, jet.VarMa
 		opts = append(opts, jet.WithCache(shared))
 	}
 	s, loader := jetrun.NewSet(first, opts...)
+	// addGlobalNow(name, value): Go code called by the running template adds a global to the Set it runs on
+	s.AddGlobalFunc("addGlobalNow", func(a jet.Arguments) reflect.Value {
+		s.AddGlobal(a.Get(0).String(), a.Get(1).Interface())
+		return reflect.Value{}
+	})
 	swCustomFn, _ := safeWriter("swCustom")
 	swCustom := mkSafeWriter(swCustomFn)
 	s.AddGlobal("swCustom", swCustom)
@@ -217,7 +222,7 @@ type refusingWriter struct {
 }
 
 func (w *refusingWriter) Write(b []byte) (int, error) {
-	if !w.refused && bytes.HasPrefix(b, w.prefix) {
+	if !w.refused && bytes.Contains(b, w.prefix) {
 		w.refused = true
 		return 0, errors.New("connection reset (once)")
 	}
